@@ -30,6 +30,16 @@ Price broadcasting (`p*np.ones(self.shape)`, deviceset.py:55-75): `Price.toMat`.
 broadcasting is numpy's and is covered by T2/the oracle with the three shapes; what *is* proved is
 that row slicing commutes with broadcasting (`shiftRows_scalar`, `shiftRows_vec`: every child, at
 every depth, sees the same scalar / per-slot vector) and the resulting closed forms.
+
+**Definitional obligations.**  The following listed theorems are `rfl` (or `simp` on a one-line
+definition): they record how the model is *defined* and carry no content beyond it — they are kept
+so that a change of the definitions that breaks them is noticed, not as evidence for the property:
+`hess_indep`, `cost_scalar_eq_mat`, `cost_vec_eq_mat`, `deriv_scalar_eq_mat`, `deriv_vec_eq_mat`,
+`cost_scalar_eq_vec`, `ofMF_cost`, `adevice_cost`, `adevice_deriv` (the `ADevice` branch of `Leaf.cost` /
+`Leaf.deriv` is literally `f.eval + priceTerm` / `f.deriv + p`), `device_deriv`, `cdevice_deriv`.
+The theorems with content are `leaf_cost`, `leaf_deriv` (case analysis over all nine kinds; `gdevice` /
+`sdevice` add `s·p` inside the per-slot sum), `ofLeaf_quasiLinear`, `ofMF_quasiLinear`, `tree_cost`,
+`tree_deriv` (mutual induction), `shiftRows_scalar/vec`, `tree_cost_scalar`, `tree_cost_vec`.
 -/
 namespace DK.C08
 open DK
